@@ -64,6 +64,7 @@ class Profile:
         self.bounded_p = None  # probability that a numeric fluent type carries bounds (None: 0.6 int / 0.5 real)
         self.zero_bound_p = 0.25  # ... that a bounded type has 0 as an endpoint
         self.self_update_p = 0.25  # ... that a numeric assignment is  f := f +/- c
+        self.static_p = 0.0  # probability that a fluent with parameters is static (never an effect target)
         self.param_name_pool = None  # names for action parameters AND (half of the) bound variables: capture-prone
         for k, v in kw.items():
             if not hasattr(self, k):
@@ -83,6 +84,7 @@ class Gen:
         self.fluents: List[dict] = []
         self.ifuns: List[dict] = []
         self._names_used = set()
+        self._names_by_prefix: Dict[str, List[str]] = {}
 
     # ------------------------------------------------------------ basic draws
     def i(self, lo, hi):
@@ -99,6 +101,22 @@ class Gen:
         return xs[self.i(0, len(xs) - 1)]
 
     def name(self, prefix):
+        if self.p.names and self.b(0.25):
+            # a name shaped like the names compilers derive from an existing item of the same sort
+            # (a -> a_0, a_1, a_0_0; f -> not_f): the classic fresh-name collision
+            olds = self._names_by_prefix.get(prefix, [])
+            if olds:
+                base = self.pick(olds)
+                n = self.pick([f"{base}_0", f"{base}_0", f"{base}_0", f"{base}_1", f"{base}_0_0", f"not_{base}", f"{base}_{base}"])
+                if n not in self._names_used:
+                    self._names_used.add(n)
+                    self._names_by_prefix.setdefault(prefix, []).append(n)
+                    return n
+        n = self._name(prefix)
+        self._names_by_prefix.setdefault(prefix, []).append(n)
+        return n
+
+    def _name(self, prefix):
         if self.p.names:
             pool = self.p.names
             if isinstance(pool, dict):
@@ -193,6 +211,8 @@ class Gen:
                 arity = 1
             params = [[f"x{k}", self.param_type()] for k in range(arity)]
             f = {"name": self.name("f"), "type": t, "params": params, "default": None}
+            if params and self.p.static_p and self.fluents and self.b(self.p.static_p):
+                f["nowrite"] = True  # static: what the grounder prunes on
             self.fluents.append(f)
         # make sure there is at least one Boolean fluent (goals / conditions need atoms)
         if not any(f["type"] == "bool" for f in self.fluents):
@@ -258,6 +278,9 @@ class Gen:
 
     def small_num(self):
         if self.p.big_consts and self.b(0.15):
+            if self.p.real_consts and self.b(0.4):
+                # rationals with large denominators (no float / limit_denominator() represents them)
+                return ["r", self.pick(["1/1000003", "1/1000000000", "123456789/1000000007", "-7/3000017", "2/18014398509481985"])]
             return ["i", self.pick([2**53 + 1, -(2**60) - 1, 3 * (2**60 + 1), 10**20 + 7])]
         if self.p.real_consts and self.b(0.2):
             return ["r", str(Fraction(self.i(-5, 7), self.pick([2, 4, 5] if self.p.decimal_only else [2, 3, 4])))]
@@ -474,6 +497,22 @@ class Gen:
                 if self.b(0.3):
                     items = rest + [eq]
                 return ["exists", [[vn, vt]], ["and"] + items]
+        if self.b(0.25):
+            # two variables bound by one quantifier
+            vt2 = ["user", self.pick(self.types)[0]]
+            vn2 = f"u{len(scope['vars'])}"
+            sc3 = dict(scope)
+            sc3["vars"] = sc2["vars"] + [(vn2, vt2)]
+            if k == "exists" and self.p.exists_eq_bias and self.b(0.6):
+                # both variables pinned by equalities, plus a body that uses them
+                t1 = self.obj_term(vt[1], dict(scope, allow_obj_fluent=True), 1)
+                t2 = self.obj_term(vt2[1], dict(scope, allow_obj_fluent=True), 1)
+                if t1 is not None and t2 is not None:
+                    items = [["=", ["var", vn, vt], t1], ["=", ["var", vn2, vt2], t2]] + [self.bool_expr(sc3, depth - 1) for _ in range(self.i(1, 2))]
+                    if self.b(0.3):
+                        items = items[2:] + items[:2]
+                    return ["exists", [[vn, vt], [vn2, vt2]], ["and"] + items]
+            return [k, [[vn, vt], [vn2, vt2]], self.bool_expr(sc3, depth - 1)]
         return [k, [[vn, vt]], self.bool_expr(sc2, depth - 1)]
 
     def expr_of_type(self, t, scope, depth):
@@ -566,6 +605,29 @@ class Gen:
                 params.append([pnames[k], ["user", self.pick(self.types)[0]]])
         scope = {"params": [(n, t) for n, t in params], "vars": []}
         pre = [self.bool_expr(scope, self.i(0, self.p.max_depth)) for _ in range(self.i(0, self.p.max_pre))]
+        if self.p.static_p:
+            # type-predicate style preconditions: a static Boolean fluent applied to the action's own
+            # parameters, as a top-level conjunct (the shape the grounder prunes groundings on)
+            for f in self.fluents:
+                if not (f.get("nowrite") and f["type"] == "bool" and f["params"]) or not self.b(0.5):
+                    continue
+                args = []
+                for _, pt in f["params"]:
+                    if pt == "bool" or pt[0] != "user":
+                        args = None
+                        break
+                    compat = [n for n, t in params if t[0] == "user" and t[1] in self.subtypes(pt[1])]
+                    objs = self.objs_of(pt[1])
+                    if compat and (self.b(0.8) or not objs):
+                        args.append(["par", self.pick(compat)])
+                    elif objs:
+                        args.append(["obj", self.pick(objs)])
+                    else:
+                        args = None
+                        break
+                if args is not None:
+                    atom = ["fl", f["name"]] + args
+                    pre.append(["not", atom] if (self.p.negation and self.b(0.15)) else atom)
         effs = []
         prev = []
         for _ in range(self.i(1, self.p.max_eff)):
@@ -683,6 +745,10 @@ class TGen(Gen):
         m = self.i(0, 9)
         if m < 4 or self.p.fixed_durations_only:
             return {"lo": lo, "hi": lo, "lopen": False, "ropen": False}
+        durfl = [f for f in self.fluents if f.get("nowrite") and not f["params"] and f["type"] != "bool" and f["type"][0] in ("int", "real")]
+        if lo[0] in ("i", "r") and durfl and self.b(0.3):
+            # constant lower bound, fluent-dependent upper bound (duration fluents are >= 1)
+            return {"lo": lo, "hi": ["+", lo, ["fl", self.pick(durfl)["name"]]], "lopen": self.b(0.4), "ropen": self.b(0.4)}
         if lo[0] in ("i", "r"):
             from fractions import Fraction as F
 
